@@ -88,6 +88,8 @@ def code_call(self, n, env):
             return self.map_method(recv, f, n, env)
         if isinstance(recv.s, RefS):
             fc = self.eng.find_contract(recv.s.cls, f.attr)
+            if fc is None and f.attr in self.unit.classes:
+                return self.construct(f.attr, n, env)          # nested class used through the instance: self.Nested(...)
             if fc is None:
                 # a field holding a callback?
                 d = self.eng.field_decl(recv.s.cls, f.attr)
@@ -795,6 +797,10 @@ def spec_call(self, n, env):
         return V(sf.decl(*[v.t for v in vs]), sf.res)
     if name in env.locals and isinstance(env.locals[name].s, FunS):
         return self.call_uninterpreted(env.locals[name], name, [self.ev(a, env) for a in A], 0)
+    if name in env.locals and isinstance(env.locals[name].s, RefS):
+        fc = self.eng.find_contract(env.locals[name].s.cls, "__call__")
+        if fc is not None:
+            return self.spec_call_pure(fc, env.locals[name], [self.ev(a, env) for a in A], env)
     raise E.StaleContract("unknown function %s in a contract expression" % name)
 
 
